@@ -1,7 +1,7 @@
 (* Extraction of the executable models (ExtrOcamlBasic only; Z/positive/Q stay Coq datatypes). *)
 From Coq Require Import List Arith ZArith QArith Qcanon.
 From Coq Require Import extraction.ExtrOcamlBasic.
-Require Import PGM.Base.Alg PGM.Base.Sums PGM.Base.Qnn PGM.Model.Domain PGM.Model.Dataset PGM.Model.Factor PGM.Model.XQ PGM.Model.BP.
+Require Import PGM.Base.Alg PGM.Base.Sums PGM.Base.Qnn PGM.Model.Domain PGM.Model.Dataset PGM.Model.Factor PGM.Model.XQ PGM.Model.BP PGM.Model.JTree.
 Extraction Language OCaml.
 Extraction "model.ml"
   QcSR QnnSF Qc_of Qnn_of Qc_num Qc_den qv
@@ -11,4 +11,5 @@ Extraction "model.ml"
   Factor.expand Factor.transpose Factor.fmap Factor.fbin Factor.fibin Factor.fagg Factor.fproject Factor.condition
   Factor.cv_bin Factor.cv_combine Factor.cv_get Factor.tabulate Factor.tbl_of
   xadd xsub xmul xdiv xmax xzero xninf
-  BP.marginal_table BP.jt_okb BP.structb BP.vschedb BP.completeb BP.rootokb BP.brute BP.root_tree.
+  BP.marginal_table BP.jt_okb BP.structb BP.vschedb BP.completeb BP.rootokb BP.brute BP.root_tree
+  JTree.jt_cliques JTree.greedy_order JTree.coverb JTree.attrs_coverb JTree.antichainb JTree.eliminate.
